@@ -33,7 +33,7 @@ def gen_case(streams, tier):
     big = tier == 'thorough' and g.random() < 0.3
     cfg = gen.make_cfg(nets=(3, 40) if big else (3, 22), rom_holes_prob=0.4)
     script = gen.gen_script(g, cfg)
-    script, stage = gen.maybe_stage(g, script, 0.2, ['sim', 'fast', 'export', 'analysis', 'optimized_copy', 'copy'])
+    script, stage = gen.maybe_stage(g, script, 0.2, ['sim', 'fast', 'export', 'analysis', 'optimized_copy', 'copy', 'reset'])
     ncyc = streams['inputs'].randint(1, 12)
     case = {
         'prop': ID,
